@@ -179,3 +179,12 @@ def Stmt.ofSexp (s : String) : Option Stmt :=
   (parseSX (ts.length + 1) ts []).bind (stmtOf (ts.length + 1))
 
 end Covfie.Imp
+
+namespace Covfie.Imp
+/-- The context the translated kernels are read in (recognised by `harness/cxx2ctx.py`): `c[j]` / `c.at(j)` on a
+`covfie::array::array` is element `j` of its data, `m(i, j)` on an `algebra::matrix` is entry `(i, j)`, `v(i)` on an
+`algebra::vector` is entry `(i, 0)`, `nd_size<N>` is an array of `N` `std::size_t`. The semantics `eval (.idx a e)` and
+`RImp.reval (.get a ix)` rest on exactly this. -/
+def contextSexp : String :=
+  "(context array-at-mut array-at-const array-index-mut array-index-const array-data matrix-elem-const matrix-elem-mut matrix-data vector-elem-const vector-elem-mut nd-size)"
+end Covfie.Imp
